@@ -173,6 +173,16 @@ CHECKS['C19'] = dict(
     note='word shapes with a handful of concrete spellings each; no field transforms in the budgets',
     design='§4 C19')
 
+CHECKS['C12'] = dict(
+    technique='TLA+ spec Report.tla (template assembly as chunk substitution that re-scans inserted content; script-element termination; '
+              'merchant-id function): TLC checks RoundTrip and EachMerchantOnce for the repaired assembly / id scheme and refutes the pinned '
+              'ones; every state (description atoms x merchant-name shapes) is rendered by the real four formats from analyze_transactions '
+              'output, the HTML decoded with html.parser + json and compared with the analysed data and figures',
+    text='Exhaustive over descriptions of <= 3 hostile text atoms and all pairs of colliding merchant-name shapes; every merchant and '
+         'transaction must decode exactly once and all formats must report the analysed figures.',
+    note='no browser: html.parser stands in for the HTML tokenizer; figures compared at printed precision',
+    design='§4 C12')
+
 NOT_YET = {}
 
 
